@@ -43,7 +43,8 @@ pub fn l1_body(lead: &'static [u8], b0: u8, n: usize, sigma: &'static [u8], asm:
     // included -- the reference scanner mirrors that; see DESIGN.md 7.2 N3)
     if matches!(ty, RawTokenType::Comment(CommentKind::InlineLine | CommentKind::IndividualLine) | RawTokenType::TextLiteral(TextLiteralKind::Unterminated | TextLiteralKind::SingleLine)) {
         let multi_open = s[ws] == b'\'' && ty == RawTokenType::TextLiteral(TextLiteralKind::Unterminated);
-        if !multi_open {
+        let asm_dquote = asm && s[ws] == b'"';
+        if !multi_open && !asm_dquote {
             assert!(!contains_byte(&s[ws..len], b'\n') && !contains_byte(&s[ws..len], b'\r'));
         }
     }
